@@ -409,6 +409,36 @@ fn run_table(cx: &mut Ctx, ch: &Channel) {
                 let r = q.purge_nowait();
                 cx.check("Queue::purge_nowait", &a, r.is_ok(), format!("{:?}", r));
                 cx.expect_one("Queue::purge_nowait", a.clone(), AMQPClass::Queue(queue::AMQPMethod::Purge(queue::Purge { ticket: 0, queue: s.clone(), nowait: true })));
+                // the same handle operations on handles that remember counts from a synchronous
+                // (or passive) declare: what a handle remembers never replaces asking the server
+                for (mc, cc) in [(0u32, 0u32), (7, 2)] {
+                    for passive in [false, true] {
+                        let a = json!({"queue_class":si,"declared_message_count":mc,"declared_consumer_count":cc,"passive":passive});
+                        cx.preload_method(AMQPClass::Queue(queue::AMQPMethod::DeclareOk(queue::DeclareOk { queue: s.clone(), message_count: mc, consumer_count: cc })));
+                        let qh = if passive { ch.queue_declare_passive(s.as_str()) } else { ch.queue_declare(s.as_str(), QueueDeclareOptions::default()) };
+                        let qh = match qh {
+                            Ok(q) => q,
+                            Err(e) => {
+                                cx.check("Channel::queue_declare", &a, false, format!("{:?}", e));
+                                continue;
+                            }
+                        };
+                        let _ = cx.probe.tap();
+                        cx.check("Channel::queue_declare", &a, qh.declared_message_count() == Some(mc) && qh.declared_consumer_count() == Some(cc), format!("{:?} {:?}", qh.declared_message_count(), qh.declared_consumer_count()));
+                        cx.preload_method(AMQPClass::Queue(queue::AMQPMethod::PurgeOk(queue::PurgeOk { message_count: 5 })));
+                        let r = qh.purge();
+                        cx.check("Queue::purge", &a, matches!(r, Ok(5)), format!("{:?}", r));
+                        cx.expect_one("Queue::purge", a.clone(), AMQPClass::Queue(queue::AMQPMethod::Purge(queue::Purge { ticket: 0, queue: s.clone(), nowait: false })));
+                        cx.probe.preload(Reply::GetOk(None));
+                        let r = qh.get(false);
+                        cx.check("Queue::get", &a, matches!(r, Ok(None)), "".into());
+                        cx.expect_one("Queue::get", a.clone(), AMQPClass::Basic(basic::AMQPMethod::Get(basic::Get { ticket: 0, queue: s.clone(), no_ack: false })));
+                        cx.preload_method(AMQPClass::Queue(queue::AMQPMethod::DeleteOk(queue::DeleteOk { message_count: 3 })));
+                        let r = qh.delete(QueueDeleteOptions { if_unused: false, if_empty: true });
+                        cx.check("Queue::delete", &a, matches!(r, Ok(3)), format!("{:?}", r));
+                        cx.expect_one("Queue::delete", a.clone(), AMQPClass::Queue(queue::AMQPMethod::Delete(queue::Delete { ticket: 0, queue: s.clone(), if_unused: false, if_empty: true, nowait: false })));
+                    }
+                }
                 for b in bools(2) {
                     let q1 = ch.queue_declare_nowait(s.as_str(), QueueDeclareOptions::default()).expect("queue");
                     let q2 = ch.queue_declare_nowait(s.as_str(), QueueDeclareOptions::default()).expect("queue");
